@@ -3821,9 +3821,20 @@ FROM (
                 builder.cross_join(info["table_src"], info["sql_alias"])
                 continue
             right_alias = info["sql_alias"]
+
+            def _left_key(key: str, upto: int = idx) -> str:
+                # FULL JOIN: a key missing from the first operand may come from any
+                # preceding operand, so match on the coalesced key.
+                holders = [
+                    i["sql_alias"] for i in clause_info[: upto + 1] if key in i["ds"].components
+                ]
+                if node.op == tokens.FULL_JOIN and len(holders) > 1:
+                    parts = ", ".join(f"{h}.{quote_name(key)}" for h in holders)
+                    return f"COALESCE({parts})"
+                return f"{comp_to_alias.get(key, first_sql_alias)}.{quote_name(key)}"
+
             on_parts = [
-                f"{comp_to_alias.get(k, first_sql_alias)}.{quote_name(k)} = "
-                f"{right_alias}.{quote_name(k)}"
+                f"{_left_key(k)} = {right_alias}.{quote_name(k)}"
                 for k in pairwise_keys[idx]
                 if k in info["ds"].components
             ]
